@@ -56,7 +56,7 @@ def u_store(strategy):
       snap['nm1'] = hs.new_metrics.term
       snap['flag1'] = hs.state.attrs['cacheTooFull']
       snap['events'] = list(hs.log.events)
-    hs.install_lock_hooks(['C02/store', 'C10/store'], on_acquire=on_acq, on_release=on_rel)
+    hs.install_lock_hooks(['C02/store', 'C10/store', 'C17/store'], on_acquire=on_acq, on_release=on_rel)
     raised = None
     try:
       hs.ip.run(CACHE + '.store', [m, (ts, v)], self_obj=hs.cache)
@@ -67,7 +67,7 @@ def u_store(strategy):
     if raised is not None:
       return
     ok_lock = 'rel' in snap
-    for pre in ('C02', 'C10'):
+    for pre in ('C02', 'C10', 'C17'):
       ctx.check(pre + '/store/updates_happen_in_one_lock_region', z3.BoolVal(ok_lock))
     if not ok_lock:
       return
